@@ -16,7 +16,8 @@ RULE = ("one run = a small-domain program (<= 512 points) mixing hard and soft s
         "class). Oracles: hard-SAT => no failure; hard constraints hold; maximality (no violated soft "
         "could be added to hard + satisfied softs); result lies in the greedy result set of some "
         "linear extension. Non-trivial = a judged call with >=2 softs of which >=1 is violated or "
-        "conflicts; distinct = (program shape, op 3-grams).")
+        "conflicts; distinct = (program shape, op 3-grams)."
+        " Softs also inside a dynamic block referenced at a random position of the inline block; constraint_mode toggled between calls and from inside pre/post_randomize (the reference filters blocks by the modes in force during the solve).")
 REAL = ["pyvsc (all of src/vsc)", "PyBoolector"]
 STUB = ["user code (generated)", "stdout (sink)"]
 ASSUMPTIONS = ["soft bodies and guards use shapes whose lowering C01 validates",
